@@ -88,7 +88,27 @@ func (c19) Gen(r *rand.Rand, tier string, idx int) *core.Plan {
 	if r.IntN(8) == 0 {
 		p.Faults = append(p.Faults, rt.Fault{Task: 0, Op: "registry.fetch", Nth: r.IntN(10), Kind: "EIO"})
 	}
+	// the client tries again: the very push that failed last (or, if none did, the one that succeeded last) is
+	// repeated with the same envelope, subject and annotations, somewhere later in the history (drawn last: the
+	// plans are otherwise what they were)
+	if r.IntN(3) == 0 {
+		for k := 1 + r.IntN(2); k > 0; k-- {
+			at := r.IntN(len(p.Ops) - 2)
+			ops := append([]core.Op{}, p.Ops[:at]...)
+			ops = append(ops, core.Op{Kind: "repush"})
+			p.Ops = append(ops, p.Ops[at:]...)
+		}
+	}
 	return p
+}
+
+// c19Attempt is a push as the client issued it (kept for a later identical attempt).
+type c19Attempt struct {
+	s, n   int
+	mt     string
+	blob   []byte
+	ann    map[string]string
+	failed bool
 }
 
 type c19Sig struct {
@@ -193,6 +213,7 @@ func (l c19) Exec(env *core.Env) *core.Result {
 		}
 		repo := mkRepo()
 		envN := 0
+		var lastPush, lastFailed *c19Attempt
 		for _, op := range p.Ops {
 			rt.Yield("op")
 			s := int(op.Int(0)) % 3
@@ -215,15 +236,41 @@ func (l c19) Exec(env *core.Env) *core.Result {
 				faulted := task.FaultsSeen != before
 				trace = append(trace, map[string]any{"op": "push", "subject": s, "n": envN, "size": size, "err": fmt.Sprint(err)})
 				sim.Abstract(fmt.Sprint("push", s, mt, size, err == nil))
+				lastPush = &c19Attempt{s, envN, mt, blob, ann, err != nil}
 				if err != nil {
 					if !faulted {
 						res.Violate("C19/push-failed-without-fault", fmt.Sprint("subject ", s), "PushSignature failed with no injected fault: %v", err)
 					}
 					disturbed = true
+					lastFailed = lastPush
 					continue // a failed push leaves no listed signature
 				}
 				model[s] = append(model[s], c19Sig{mt, digest.FromBytes(blob), size, ann})
 				manifests[s] = append(manifests[s], [2]digest.Digest{pushedManifest.Digest, digest.FromBytes(blob)})
+			case "repush":
+				a := lastFailed
+				if a == nil {
+					a = lastPush
+				}
+				if a == nil {
+					continue
+				}
+				s = a.s
+				_, pushedManifest, err := repo.PushSignature(ctx, a.mt, a.blob, subjectAs(s, a.n), a.ann)
+				trace = append(trace, map[string]any{"op": "repush", "subject": s, "n": a.n, "after_failure": a.failed, "err": fmt.Sprint(err)})
+				sim.Abstract(fmt.Sprint("repush", s, a.failed, err == nil))
+				disturbed = true
+				if err != nil {
+					// a store may refuse content it already holds: not a push, nothing to list
+					res.Probe("repeated_push_refused")
+					continue
+				}
+				res.Probe("repeated_push_accepted")
+				if a.failed {
+					lastFailed = nil
+				}
+				model[s] = append(model[s], c19Sig{a.mt, digest.FromBytes(a.blob), len(a.blob), a.ann})
+				manifests[s] = append(manifests[s], [2]digest.Digest{pushedManifest.Digest, digest.FromBytes(a.blob)})
 			case "lose-manifest":
 				if p.W("disk") != 1 || len(manifests[s]) == 0 {
 					continue
